@@ -1325,3 +1325,62 @@ func (c *Ctx) r0813(pk *packages.Package) {
 	}
 	c.R.Floor(rule, "advances of the result's start over a zero", n, 2)
 }
+
+// R08.14: a copy whose destination is bounded on both sides has room for its source.
+func (c *Ctx) r0814(pk *packages.Package) {
+	const rule = "R08.14"
+	c.R.Rule(rule, "minify.Number and minify.Decimal move digits inside their argument with the builtin copy, which copies min(len(dst), len(src)) bytes and says nothing about the rest. Where both arguments are reslices with explicit bounds, the difference len(dst) - len(src) is computed as a linear form over the bounds; when it is a negative constant the copy always drops the tail of its source (`copy(num[start+1:dot], num[start:dot])` leaves the last integer digit behind: `1.25e10` → `0.25e8`)")
+	info := pk.TypesInfo
+	n := 0
+	for _, name := range []string{"Decimal", "Number"} {
+		fd := c.fn(rule, pk, name)
+		if fd == nil {
+			continue
+		}
+		lc := newLinCtx(c, info, c.graph(pk, fd))
+		length := func(e ast.Expr) (linForm, bool) {
+			se, ok := ast.Unparen(e).(*ast.SliceExpr)
+			if !ok || se.High == nil || se.Slice3 {
+				return linForm{}, false
+			}
+			hi, ok := lc.lin(se.High)
+			if !ok {
+				return linForm{}, false
+			}
+			if se.Low == nil {
+				return hi, true
+			}
+			lo, ok := lc.lin(se.Low)
+			if !ok {
+				return linForm{}, false
+			}
+			return hi.add(lo, -1), true
+		}
+		ast.Inspect(fd.Body, func(z ast.Node) bool {
+			call, ok := z.(*ast.CallExpr)
+			if !ok || len(call.Args) != 2 {
+				return true
+			}
+			id, ok := call.Fun.(*ast.Ident)
+			if !ok || id.Name != "copy" {
+				return true
+			}
+			if _, isBuiltin := info.Uses[id].(*types.Builtin); !isBuiltin {
+				return true
+			}
+			n++
+			construct := fmt.Sprintf("minify.%s/copy#%d has room for its source", name, n)
+			dl, ok1 := length(call.Args[0])
+			sl, ok2 := length(call.Args[1])
+			if !ok1 || !ok2 {
+				c.R.OK(rule, construct, c.pos(call), "the destination is open-ended (or a bound is not linear): bounded by the slice itself")
+				return true
+			}
+			d := dl.add(sl, -1)
+			c.R.Check(len(d.t) != 0 || d.k >= 0, rule, construct, c.pos(call), "len(dst) - len(src) = "+d.String(),
+				fmt.Sprintf("the destination %s is %d byte(s) shorter than the source %s for every value of the bounds: the copy silently leaves the tail of the source behind (`1.25e10` → `0.25e8`)", str(call.Args[0]), -d.k, str(call.Args[1])))
+			return true
+		})
+	}
+	c.R.Floor(rule, "copies in Number and Decimal", n, 4)
+}
